@@ -29,7 +29,10 @@ type stubLogBase struct {
 	reqs   int
 	bad    []string // requests the stub did not understand
 	mount  string   // path of the log's root on its host ("" = the host's root)
+	outage bool     // everything but the checkpoint / log info answers 503
 }
+
+func (s *stubLogBase) setOutage(on bool) { s.mu.Lock(); s.outage = on; s.mu.Unlock() }
 
 // below strips the log's root from a request path; ok=false when the request is beside the root.
 func (s *stubLogBase) below(p string) (string, bool) {
@@ -60,6 +63,9 @@ func (s *stubPixel) RoundTrip(r *http.Request) (*http.Response, error) {
 	}
 	if p == "checkpoint.txt" {
 		return mkResp(r, 200, signNote(cpText(s.origin, s.size, s.br.root(s.size)), s.signer))
+	}
+	if s.outage {
+		return mkResp(r, 503, []byte("tile storage is unavailable"))
 	}
 	// tile/<H>/<L>/<NNN>[.p/<W>]
 	parts := strings.Split(p, "/")
@@ -136,6 +142,9 @@ func (s *stubRekor) RoundTrip(r *http.Request) (*http.Response, error) {
 		b, _ := json.Marshal(out)
 		return mkResp(r, 200, b)
 	case "api/v1/log/proof":
+		if s.outage {
+			return mkResp(r, 503, []byte(`{"code":503,"message":"proof service unavailable"}`))
+		}
 		q := r.URL.Query()
 		first, err1 := strconv.ParseUint(q.Get("firstSize"), 10, 64)
 		last, err2 := strconv.ParseUint(q.Get("lastSize"), 10, 64)
@@ -170,6 +179,9 @@ func (s *stubServerless) RoundTrip(r *http.Request) (*http.Response, error) {
 	}
 	if p == "checkpoint" {
 		return mkResp(r, 200, signNote(cpText(s.origin, s.size, s.br.root(s.size)), s.signer))
+	}
+	if s.outage {
+		return mkResp(r, 503, []byte("tile storage is unavailable"))
 	}
 	// tile/<LL>/<IIII>/<II>/<II>/<II>[.<SS>]   (all hexadecimal)
 	parts := strings.Split(p, "/")
